@@ -17,5 +17,9 @@ Fixpoint all2 {A B} (p : A -> B -> bool) (a : list A) (b : list B) : bool :=
 (* observed: per registry entry (direct children first, then contexts - the order of the server's registries),
    per child: is the process gone, what the parent-side worker reports.  The race inside a context helper which is
    stopped while forcing one of its workers is not observable from outside: either outcome is accepted. *)
+(* ... and so is the moment at which an impatient caller of terminate() has the server SIGTERMed: any cut is accepted *)
 Definition check_shutdown (m : mode) (reg : list entry) (obs : list (list (bool * verdict))) : bool :=
-  existsb (fun race => all2 (all2 fate_matches) (shutdown gen_flags m race None reg) obs) [true; false].
+  existsb (fun race =>
+    existsb (fun cut => all2 (all2 fate_matches) (shutdown gen_flags m race cut reg) obs)
+            (None :: map Some (seq 0 (S (length reg)))))
+    [true; false].
